@@ -509,6 +509,8 @@ impl<'i> RecipeCollector<'i, '_> {
                     while let Some((before, temperature, after)) =
                         find_inline_quantity(haystack, self.converter)
                     {
+                        #[cfg(feature = "verif")]
+                        crate::verif::tick("in_step:inline_quantities");
                         if !before.is_empty() {
                             items.push(Item::Text {
                                 value: before.to_string(),
@@ -1358,6 +1360,8 @@ fn find_inline_quantity<'a>(
     #[cfg(debug_assertions)]
     let mut prev = 0;
     while let Some(offset) = text[i..].find(|c: char| c.is_ascii_digit()) {
+        #[cfg(feature = "verif")]
+        crate::verif::tick("find_inline_quantity");
         i += offset;
 
         // get "before" slice and check negative
